@@ -8,7 +8,7 @@ from dali.address import GearBroadcast, GearGroup, GearShort
 from dali.exceptions import DALISequenceError
 from dali.sequences import QueryDeviceTypes, QueryGroups, SetGroups
 
-from sim import busim, plans
+from sim import busim, drvsim, plans
 from sim.core import EventLog, Violation
 from sim.runner import add_violation, new_result
 
@@ -31,7 +31,7 @@ ASSUMPTIONS = [
 ]
 COMPONENTS = {"real": ["dali.sequences.QueryDeviceTypes, QueryGroups, SetGroups", "dali.gear.general command classes and responses"],
               "stub": ["DALI bus and control gear (sim/busim.py models)", "driver (the sequence is stepped directly, EnableDeviceType inserted as every driver does)"]}
-PROBES = ["never-ending-stream", "collision", "answer-dropped", "answer-garbled", "dt-list-with-zero", "dt-list-long",
+PROBES = ["stacked-tridonic", "stacked-hasseb", "stacked-luba", "stacked-sci", "never-ending-stream", "collision", "answer-dropped", "answer-garbled", "dt-list-with-zero", "dt-list-long",
           "setgroups-diff-minimal", "setgroups-full-rewrite", "repeat-stream"]
 
 ALPHABET = [None, "error", 0, 1, 6, 6, 254, 255]
@@ -66,6 +66,13 @@ def gen_plan(seed, tier="quick"):
         plan["fault"] = [r.randrange(0, 12), r.choice(["drop", "garble"])]
     elif x < 0.55 and seq == "types":
         plan["script"] = [r.choice(ALPHABET) for _ in range(r.randrange(1, 7))]
+    if seed % 40 == 13:
+        # 'stacked' transport: the same scenario through a real asyncio driver and
+        # its gateway model (fault-free; serial gateways report collisions as silence)
+        plan["fault"] = plan["script"] = None
+        plan["transport"] = drvsim.DRIVERS[(seed // 40) % 4]
+        if plan["transport"] in ("luba", "sci"):
+            plan["others"] = [o for o in plan["others"] if o["short"] != short]
     return plan
 
 
@@ -108,7 +115,13 @@ def run_plan(plan):
         gen = SetGroups(dest, set(want))
     faults = {plan["fault"][0]: plan["fault"][1]} if plan["fault"] else {}
     cap = 2 + 256 + 40
-    sr = busim.run_sequence(gen, bus, answer_faults=faults, cap=cap, log=log)
+    transport = plan.get("transport")
+    if transport:
+        sr, rr_ = drvsim.run_stacked(transport, plan["seed"], units, lambda: gen)
+        log = rr_.world.log
+        bus.t_us = int(rr_.vtime * 1e6)
+    else:
+        sr = busim.run_sequence(gen, bus, answer_faults=faults, cap=cap, log=log)
     vs = []
 
     def V(clause, detail, site=None):
@@ -173,7 +186,11 @@ def run_plan(plan):
                 if u not in addressed and u.groups != before[u.name]:
                     V("bystander-changed", "unit %s not addressed but groups changed" % u.name, site=dest_kind)
             if dest_kind in ("short", "int") and not disturbed:
-                n_changes = sum(1 for c in sr.commands if 0x60 <= (c[1].frame.as_integer & 0xFF) <= 0x7F)
+                if transport:
+                    n_changes = sum(1 for b_, v_ in sr.frames if 0x60 <= (v_ & 0xFF) <= 0x7F and (v_ >> 8) & 1
+                                    and (v_ >> 15) == 0) // (2 if transport == "hasseb" else 1)
+                else:
+                    n_changes = sum(1 for c in sr.commands if 0x60 <= (c[1].frame.as_integer & 0xFF) <= 0x7F)
                 need = len(before["T"] ^ want)
                 if n_changes != need:
                     V("unnecessary-changes", "%d Add/Remove commands for a symmetric difference of %d" % (
@@ -189,6 +206,8 @@ def run_plan(plan):
         probes["collision"] = 1
     if plan["script"] is not None:
         probes["never-ending-stream" if _script_expect(plan["script"]) is None else "repeat-stream"] = 1
+    if transport:
+        probes["stacked-" + transport] = 1
     if 0 in t["dts"] and len(t["dts"]) > 1:
         probes["dt-list-with-zero"] = 1
     if len(t["dts"]) >= 4:
@@ -204,9 +223,11 @@ def run_plan(plan):
     res["faults"] = {("answer-" + c[4]): 1 for c in fired}
     if plan["script"] is not None:
         res["faults"]["adversarial-answer-stream"] = 1
+    if transport:
+        res["shape"] = log.shape()
     if res["violations"]:
         res["plan"] = plan
-    res["sample"] = {"seed": plan["seed"], "seq": plan["seq"], "dest": dest_kind, "target": t, "fault": plan["fault"],
+    res["sample"] = {"seed": plan["seed"], "transport": transport or "direct", "seq": plan["seq"], "dest": dest_kind, "target": t, "fault": plan["fault"],
                      "script": plan["script"], "status": sr.status,
                      "value": sorted(sr.value) if isinstance(sr.value, (set, list)) else repr(sr.value),
                      "commands": [(str(c[1]), c[3]) for c in sr.commands[:8]]}
@@ -263,6 +284,10 @@ def run_seed(seed, tier):
 
 
 def shrink(plan):
+    if plan.get("transport"):
+        p = copy.deepcopy(plan)
+        del p["transport"]
+        yield p
     for i in range(len(plan["others"])):
         p = copy.deepcopy(plan)
         del p["others"][i]
